@@ -1,4 +1,4 @@
-use std::{rc::Rc, vec};
+use std::{collections::HashSet, rc::Rc, vec};
 
 use crate::{
     cfg::{Cfg, CfgNode, Function, RegisterSet},
@@ -27,8 +27,14 @@ impl FunctionMarkupPass {
         let mut returns = None; // Return instructions in this function
         let mut instructions = vec![];
 
-        // Traverse the CFG for all nodes reachable from the entry point
-        for node in cfg.iter_nexts(Rc::clone(entry)) {
+        // Find all nodes reachable from the entry point, then go through them
+        // in program order: the exit of the function is its first return in
+        // the source, whatever order the traversal met the returns in.
+        #[allow(clippy::mutable_key_type)]
+        let reachable = cfg
+            .iter_nexts(Rc::clone(entry))
+            .collect::<HashSet<Rc<CfgNode>>>();
+        for node in cfg.iter().filter(|node| reachable.contains(node)) {
             // Mark the node as being a part of the given function
             instructions.push(Rc::clone(&node));
             node.insert_function(Rc::clone(func));
